@@ -3542,7 +3542,69 @@ def split_live_ranges(tree, ref_locals):
     return total
 
 
+_UNSTABLE = {}
+_CUR_MODEL = [None]
+
+
+def _stores_outside_init(tree):
+    """attribute names stored (assigned, augmented, deleted) anywhere but in an __init__"""
+    out = set()
+    for q, fn in functions(tree):
+        if fn.name == '__init__':
+            continue
+        for n in _own_walk(fn):
+            if isinstance(n, ast.Attribute) and isinstance(n.ctx, (ast.Store, ast.Del)):
+                out.add(n.attr)
+            elif isinstance(n, ast.Call) and isinstance(n.func, ast.Name) and n.func.id in ('setattr', 'delattr') and len(n.args) >= 2 and isinstance(n.args[1], ast.Constant):
+                out.add(str(n.args[1].value))
+    for n in tree.body:
+        for x in ast.walk(n) if not isinstance(n, (ast.FunctionDef, ast.AsyncFunctionDef, ast.ClassDef)) else []:
+            if isinstance(x, ast.Attribute) and isinstance(x.ctx, (ast.Store, ast.Del)):
+                out.add(x.attr)
+    return out
+
+
+def _unstable_attrs(model, tree):
+    """names of attributes that something in the package re-binds after construction: a local bound to such an attribute is a snapshot,
+    not an alias"""
+    out = set(_stores_outside_init(tree))
+    if model is None:
+        return None                                       # cannot know: no attribute counts as stable
+    key = getattr(model, 'root', None)
+    if key not in _UNSTABLE:
+        acc = set()
+        import glob as _glob
+        for pkg in ('cflib', 'lpslib'):
+            for f in _glob.glob(os.path.join(key, pkg, '**', '*.py'), recursive=True):
+                try:
+                    acc |= _stores_outside_init(ast.parse(open(f, encoding='utf-8').read()))
+                except (SyntaxError, OSError):
+                    pass
+        _UNSTABLE[key] = acc
+    out |= _UNSTABLE[key]
+    for src in getattr(model, 'overlay', {}).values():
+        try:
+            out |= _stores_outside_init(ast.parse(src))
+        except SyntaxError:
+            pass
+    return out
+
+
+def _stable_chain(e, unstable, fn=None):
+    """`self.a.b` / `Class.CONST` / `self.q.get`: a chain of attribute reads from a plain name in which no attribute is ever re-bound
+    after construction - reading it again later gives the same object"""
+    if unstable is None or not isinstance(e, ast.Attribute):
+        return False
+    cur = e
+    while isinstance(cur, ast.Attribute):
+        if cur.attr in unstable:
+            return False
+        cur = cur.value
+    return isinstance(cur, ast.Name)
+
+
 def inline_temps(tree, path, ref_locals):
+    unstable = _unstable_attrs(_CUR_MODEL[0], tree)
     total = 0
     for q, fn in functions(tree):
         want = ref_locals.get(q)
@@ -3577,7 +3639,8 @@ def inline_temps(tree, path, ref_locals):
                 uses = [n for n in ast.walk(fn) if isinstance(n, ast.Name) and n.id == name and isinstance(n.ctx, ast.Load)]
                 if not uses:
                     continue
-                reads_self = any(isinstance(n, ast.Attribute) and isinstance(n.value, ast.Name) and n.value.id == 'self' for n in ast.walk(st.value))
+                alias = _stable_chain(st.value, unstable) and not any(isinstance(n, ast.Name) and n.id in _stores(fn) for n in ast.walk(st.value))
+                reads_self = not alias and any(isinstance(n, ast.Attribute) and isinstance(n.value, ast.Name) and n.value.id == 'self' for n in ast.walk(st.value))
                 if len(uses) > 1 and _creates_object(st.value):
                     continue            # two uses of one list / iterator / array are two views of ONE object: writing the expression twice makes two
                 if not _pure(st.value, allow_self=True):
@@ -3609,7 +3672,7 @@ def inline_temps(tree, path, ref_locals):
                 if any(isinstance(n, ast.Name) and isinstance(n.ctx, (ast.Store, ast.Del)) and n.id in reads for s_ in between for n in ast.walk(s_)):
                     continue
                 # a value that reads object state (attributes, items) must not move across a statement that may change that state
-                reads_state = any(isinstance(n, (ast.Attribute, ast.Subscript)) for n in ast.walk(st.value))
+                reads_state = not alias and any(isinstance(n, (ast.Attribute, ast.Subscript)) for n in ast.walk(st.value))
                 if reads_state and _state_may_change(block[i + 1:max(use_idx)], {n.id for n in ast.walk(st.value) if isinstance(n, ast.Name)}):
                     continue
                 # uses must come after the definition and in its block (or nested below it)
@@ -4135,6 +4198,7 @@ def normalise(tree, path, ref_locals, model=None):
     ref = _ref().get(path)
     if ref is None:
         return {}
+    _CUR_MODEL[0] = model
     out = {}
     for name, fn in (('moved', lambda: pull_back_moved(tree, ref, path, model) + drop_moved_away(tree, ref, path, model)), ('match', lambda: lower_match(tree, ref)), ('eafp', lambda: undo_eafp_probes(tree, ref)), ('enums', lambda: dissolve_enums(tree, ref)), ('namedtuples', lambda: dissolve_namedtuples(tree, ref, path, model)), ('regroup', lambda: regroup_indexed_reads(tree, ref, ref_locals)), ('dataclasses', lambda: undo_dataclasses(tree, ref)), ('dispatch', lambda: undo_dispatch_tables(tree, ref)),
                      ('annotations', lambda: strip_annotations(tree, ref)), ('imports', lambda: normalise_imports(tree, ref)), ('attributes', lambda: rename_attributes(tree, ref)),
